@@ -149,11 +149,14 @@ static void run_case(val *c)
 	} else {
 		val *b = v_at(c, 2);
 		size_t n = v_len(b);
-		/* one readable byte behind the field, as inside a real header block */
-		char *p = malloc(n + 1);
+		/* the tar parsers (kinds 0-3) are also used on values that end where the read buffer ends (pax
+		 * attributes, the GNU sparse 0.1 map): exactly the field.  The cpio and ar parsers only ever see
+		 * fields inside a header block: one readable byte behind the field */
+		size_t slack = kind <= 3 ? 0 : 1;
+		char *p = malloc(n + slack ? n + slack : 1);
 		int64_t r = 0;
 		if (n) memcpy(p, b->b, n);
-		p[n] = '\0';
+		if (slack) p[n] = '\0';
 		switch (kind) {
 		case 0: r = tar_atol(p, n); break;
 		case 1: r = tar_atol8(p, n); break;
